@@ -297,7 +297,8 @@ func VerifRegEntity() {
 	}
 	if ownsRuntime {
 		rt := w.runtimeDescriptor(registry.GovernanceEntity, 0)
-		rMust(w.state.SetRuntime(w.ctx, rt, false), "SetRuntime")
+		// (a runtime without active nodes is suspended; it still belongs to its entity)
+		rMust(w.state.SetRuntime(w.ctx, rt, symx.Bool("runtimeSuspended")), "SetRuntime")
 		rMust(w.state.SetRuntimeOwner(w.ctx, rt.ID, rt.EntityID), "SetRuntimeOwner")
 	}
 
